@@ -95,6 +95,24 @@ func c08O3(r *core.R) {
 				}
 				return true
 			})
+			if !rejected {
+				// ... or by assigning the error the function then returns on every path
+				for _, b := range gf.g.Blocks {
+					if !b.Live {
+						continue
+					}
+					for i, n := range b.Nodes {
+						e := c08ErrAssign(info, gf, n)
+						if e == nil {
+							continue
+						}
+						cases := cm.casesAt(gs, n, gv, 0)
+						if len(cases) == 1 && int64(cases[0]) == k && c08ReturnsErrFrom(info, gf, b, i+1, e) {
+							rejected = true
+						}
+					}
+				}
+			}
 			if rejected {
 				r.OKTrivial(c+" unsupported", gs.Decl.Pos(), "field %d is rejected with an error (C06.E7)", k)
 			} else {
@@ -114,6 +132,12 @@ func c08O3(r *core.R) {
 					if cand.msg == "PrimitiveGroup" && cand.fi.Obj == f.fi.Obj {
 						mvo = cand.obj
 					}
+				}
+				// a decision looked up in a constant table by the field number: the entry for this field
+				if sub, zero := c08TableSubst(cm, f, fact.expr, mvo, k); zero {
+					continue // no entry: the constant false
+				} else if sub != fact.expr {
+					fact.expr = sub
 				}
 				if fld := isScannerField(fact.expr, f.body); fld != nil && types.Identical(fld.Type(), types.Typ[types.Bool]) {
 					flags = append(flags, fact)
@@ -135,6 +159,18 @@ func c08O3(r *core.R) {
 				if v := c01Eval(info, fact.expr, func(at ast.Expr) c01Tri {
 					x, y, neq, isEq := c01EqCmp(at)
 					if !isEq {
+						// an ordering test of the field number against a constant
+						if l, op, rr, okc := cmpNorm(at); okc && (op == token.LSS || op == token.LEQ) {
+							l, rr = c01StripConv(info, l), c01StripConv(info, rr)
+							lc, lok := constInt(info, l)
+							rc, rok := constInt(info, rr)
+							switch {
+							case rok && cm.isFieldNumberOf(f, l, mvo):
+								return c01Bool(k < rc || (op == token.LEQ && k == rc))
+							case lok && cm.isFieldNumberOf(f, rr, mvo):
+								return c01Bool(lc < k || (op == token.LEQ && lc == k))
+							}
+						}
 						return c01U
 					}
 					for _, pr := range [][2]ast.Expr{{x, y}, {y, x}} {
@@ -281,7 +317,7 @@ func c08FilterWiring(r *core.R, cm *c01Model, fl *c08Flow, gs *FuncInfo, gv *c01
 						switch {
 						case fld.Name() != want:
 							bad = "uses " + fld.Name() + " for a " + kind
-						case len(y.Args) != 1 || objOf(info, y.Args[0]) != s.elem:
+						case len(y.Args) != 1 || !fl.is(f, y.Args[0], s.elem):
 							bad = "the filter is not applied to the element that is appended"
 						default:
 							filterCall = y
@@ -405,15 +441,32 @@ func c08WritesElem(fl *c08Flow, f *c01Fn, n ast.Node, x types.Object) bool {
 		case *ast.FuncLit:
 			return false
 		case *ast.AssignStmt:
-			for _, l := range s.Lhs {
-				if _, isId := ast.Unparen(l).(*ast.Ident); !isId && c01RootObj(info, l) == x {
+			for i, l := range s.Lhs {
+				if _, isId := ast.Unparen(l).(*ast.Ident); !isId && (c01RootObj(info, l) == x || fl.below(f, l, x)) {
 					hit = true
+				}
+				// x (re)defined as the element a decoding helper hands back: `x, err := decode(.., slot)` where the
+				// callee writes through that parameter and returns it
+				if fl.isSelf(l, x) && i == 0 && len(s.Rhs) == 1 {
+					if call, ok := ast.Unparen(s.Rhs[0]).(*ast.CallExpr); ok {
+						if tf := c01Callee(f.pk, call); tf != nil {
+							for ai, a := range call.Args {
+								if !c08IsElemType(info.TypeOf(a)) || !c08WritesThroughParam(fl.m, tf.Obj, ai, 0) {
+									continue
+								}
+								a := a
+								if c08ReturnsParamP(fl.m, call, func(e ast.Expr) bool { return e == a }) {
+									hit = true
+								}
+							}
+						}
+					}
 				}
 			}
 		case *ast.CallExpr:
 			if tf := c01Callee(f.pk, s); tf != nil {
 				for i, a := range s.Args {
-					if objOf(info, a) == x && c08WritesThroughParam(fl.m, tf.Obj, i, 0) {
+					if fl.is(f, a, x) && c08WritesThroughParam(fl.m, tf.Obj, i, 0) {
 						hit = true
 					}
 				}
@@ -506,29 +559,51 @@ func c08SkipRule(r *core.R, cm *c01Model, gs *FuncInfo, gv *c01MsgVar) {
 	}
 	// a cycle head → ... → head that passes no consuming node
 	free := false
-	seen := map[*cfg.Block]bool{}
-	var dfs func(b *cfg.Block)
-	dfs = func(b *cfg.Block) {
-		if free || seen[b] || !loop.blocks[b] {
+	type skey struct {
+		b *cfg.Block
+		e types.Object
+	}
+	seen := map[skey]bool{}
+	// e: an error variable known to be non-nil on the path (assigned a certain error and not assigned since)
+	var dfs func(b *cfg.Block, e types.Object)
+	dfs = func(b *cfg.Block, e types.Object) {
+		if free || seen[skey{b, e}] || !loop.blocks[b] {
 			return
 		}
-		seen[b] = true
+		seen[skey{b, e}] = true
 		for _, n := range b.Nodes {
 			if consume.nodeMust(f, n) {
 				return
 			}
+			if o := c08ErrAssign(info, f, n); o != nil {
+				e = o
+			} else if e != nil && c08Assigns(info, n, e) {
+				e = nil
+			}
 		}
-		for _, nb := range b.Succs {
+		v := c01U
+		if len(b.Succs) == 2 {
+			v = c08CondKnowing(info, f.condOf(b), e)
+		}
+		for si, nb := range b.Succs {
+			if (si == 0 && v == c01F) || (si == 1 && v == c01T) {
+				continue
+			}
 			if nb == loop.head {
+				// the cycle is only closed when the loop goes on: a loop condition that is false because an error
+				// was recorded leaves the loop
+				if c08CondKnowing(info, f.condOf(loop.head), e) == c01F {
+					continue
+				}
 				free = true
 				return
 			}
-			dfs(nb)
+			dfs(nb, e)
 		}
 	}
 	for _, nb := range loop.head.Succs {
 		if loop.blocks[nb] {
-			dfs(nb)
+			dfs(nb, nil)
 		}
 	}
 	if free {
@@ -543,27 +618,60 @@ func c08SkipRule(r *core.R, cm *c01Model, gs *FuncInfo, gv *c01MsgVar) {
 // c08EscapeJudgedInCallee: node n hands x to a function of the package whose parameter is itself a tracked element
 // variable that the callee decodes into (so the callee's own append site is judged there).
 func c08EscapeJudgedInCallee(fl *c08Flow, f *c01Fn, n ast.Node, x types.Object, tracked []c08Elem) bool {
-	info := fl.info
+	return c08JudgedBelow(fl, f, n, x, tracked, 0)
+}
+
+// c08JudgedBelow follows the element of slot x from node n into the functions of the package it is handed to (as an
+// argument, or, for a slot that is a struct field, through any callee that mentions the field) until it reaches a
+// parameter that is itself a tracked element variable the callee writes through.
+func c08JudgedBelow(fl *c08Flow, f *c01Fn, n ast.Node, x types.Object, tracked []c08Elem, depth int) bool {
+	if depth > 3 {
+		return false
+	}
 	judged := false
+	inCallee := func(tf *FuncInfo, y types.Object) {
+		g := c01FnOf(fl.r.P, tf)
+		for _, b := range g.g.Blocks {
+			if !b.Live {
+				continue
+			}
+			for _, nd := range b.Nodes {
+				if !judged && fl.escapes(g, nd, y, 0) && c08JudgedBelow(fl, g, nd, y, tracked, depth+1) {
+					judged = true
+				}
+			}
+		}
+	}
 	ast.Inspect(n, func(y ast.Node) bool {
 		call, ok := y.(*ast.CallExpr)
-		if !ok {
-			return true
+		if !ok || judged {
+			return !judged
 		}
 		tf := c01Callee(f.pk, call)
 		if tf == nil {
 			return true
 		}
+		took := false
 		for i, a := range call.Args {
-			if objOf(info, a) != x {
+			if !fl.is(f, a, x) {
 				continue
 			}
-			po := c01Param(info, tf, i)
+			took = true
+			po := c01Param(fl.info, tf, i)
+			if po == nil {
+				continue
+			}
 			for _, el := range tracked {
 				if el.obj == po && c08WritesThroughParam(fl.m, tf.Obj, i, 0) {
 					judged = true
 				}
 			}
+			if !judged {
+				inCallee(tf, po)
+			}
+		}
+		if !took && fl.mentions(tf, x) {
+			inCallee(tf, x)
 		}
 		return true
 	})
@@ -628,6 +736,12 @@ func c08DecodedBefore(r *core.R, fl *c08Flow, f *c01Fn, blk *cfg.Block, at ast.N
 			cf := cf0.innermost(call)
 			cb, ci := blockOf(cf.g, call.Pos())
 			ao := objOf(info, call.Args[idx])
+			if sel, isSel := ast.Unparen(call.Args[idx]).(*ast.SelectorExpr); isSel && ao == nil {
+				// the argument is a slot that is a struct field
+				if fv := fieldOf(info, sel); fv != nil && c08IsElemType(fv.Type()) {
+					ao = fv
+				}
+			}
 			if cb == nil || ao == nil || !c08DecodedBefore(r, fl, cf, cb, cb.Nodes[ci], ao, depth+1) {
 				all = false
 			}
